@@ -1,6 +1,7 @@
 #include "core.h"
 #include <cstdarg>
 #include <cstdio>
+#include <signal.h>
 
 std::string fmt(const char *f, ...) {
     char buf[2048];
@@ -146,6 +147,11 @@ void World::runAll() {
                 cv.wait(lk, [&] { return current == (int)i; });
             }
             Session *s = sessions[i];
+            // alternate signal stack, so that a stack overflow inside the library still produces a crash signature
+#ifndef SIM_SAN
+            static thread_local char altstack[1 << 16];
+            stack_t ss; ss.ss_sp = altstack; ss.ss_size = sizeof altstack; ss.ss_flags = 0; sigaltstack(&ss, nullptr);
+#endif
             try {
                 s->run();
             } catch (std::exception &e) {
